@@ -378,6 +378,14 @@ def r8(p, rep):
             ch = attr_chain(n) if isinstance(n, ast.Attribute) else None
             if ch and len(ch) >= 3 and ch[-3:-1] == ["inspect", "Parameter"]:
                 members.add(ch[-1])
+            # a module-level table of kinds (`_KEYWORD_KINDS = (inspect.Parameter.X, ...)`) referenced by name
+            if isinstance(n, ast.Name) and isinstance(n.ctx, ast.Load):
+                for a in g.module.tree.body:
+                    if isinstance(a, ast.Assign) and any(isinstance(t, ast.Name) and t.id == n.id for t in a.targets):
+                        for y in ast.walk(a.value):
+                            ch2 = attr_chain(y) if isinstance(y, ast.Attribute) else None
+                            if ch2 and len(ch2) >= 3 and ch2[-3:-1] == ["inspect", "Parameter"]:
+                                members.add(ch2[-1])
     site = f.loc
     need = {"POSITIONAL_OR_KEYWORD", "KEYWORD_ONLY"}
     miss = need - members
